@@ -1,4 +1,5 @@
 import Secp.Proofs.DecodeRT
+import Secp.Proofs.DecodeTies
 /-!
 # C03 — element decoders accept exactly the canonical encodings of curve points
 
@@ -77,6 +78,17 @@ theorem decodeHex_spec (e : Pt L4) (h : String) :
   constructor
   · intro hn; rw [hn]
   · intro b hb; rw [hb]
+
+/-- the decoders of `element.go`, regenerated from their Go bodies on every run (length and prefix tests, calls into the field,
+every early return with the receiver as it is at that point, the `switch`, the tail calls), are the model the theorems above
+are about: same acceptance, same error, same receiver afterwards, for every receiver and every byte string -/
+theorem decoders_tied (e : Pt L4) (data x y : Bytes) :
+    GenDecode.decode DecodeTies.limbBytes Hand.limbOps e data = DecodeTies.shape (Hand.ElementL.decode e data) ∧
+    GenDecode.decodeCompressed DecodeTies.limbBytes Hand.limbOps e data = DecodeTies.shape (Hand.ElementL.decodeCompressed e data) ∧
+    GenDecode.decodeUncompressed DecodeTies.limbBytes Hand.limbOps e data = DecodeTies.shape (Hand.ElementL.decodeUncompressed e data) ∧
+    GenDecode.decodeCoordinates DecodeTies.limbBytes Hand.limbOps e x y = DecodeTies.shape (Hand.ElementL.decodeCoordinates e x y) :=
+  ⟨DecodeTies.decode_tie e data, DecodeTies.decodeCompressed_tie e data, DecodeTies.decodeUncompressed_tie e data,
+   DecodeTies.decodeCoordinates_tie e x y⟩
 
 -- non-vacuity: the specification accepts the encoding of the base point, so the acceptance branch is inhabited
 example : Spec.decode (Spec.encodeCompressed Spec.G) = some Spec.G :=
